@@ -12,23 +12,31 @@ downstream cell is `c`. `NoCycle g`: no cell comes back to itself after `m ≥ 1
 
 All statements hold for every grid size, every code table, every flow-direction content, every field, every
 no-data value; value types: any type with `+` (the fold statements, valid verbatim for IEEE doubles) or any
-commutative monoid (the sum statements: exact arithmetic).
+commutative monoid (the sum statements: exact arithmetic); `Rounded α rnd` (§10) is a type with `+` whose addition rounds.
 
-Clause -> theorems -> what stays outside (audit of the deepening round)
+Clause -> theorems -> what stays outside (audit of the deepening round; round 7: rounded arithmetic, `nprint`, empty
+grids, histories)
 
 | clause of the property | theorems | outside the theorems |
 |---|---|---|
 | quantifier: "any flow-direction grid without cycles", default cell limit | `noCycle_iff_allTerminate`, `allTerminate_default`, `allTerminate_of_noCycle_cap`: the hypothesis `AllTerminate` of the value theorems IS acyclicity for every limit >= nrows*ncols-1 | the harness's own cycle search is compared with `allTerminateB`/`endsAt` (`spec` request) |
-| a draining cell holds the sum of the field over that cell and every cell draining through it | `accumulate_eq_sum`, `accumulate_acyclic_default`; order-exact for a bare `+` (IEEE doubles): `accumulate_eq_fold`, `onPath_iff_drains`; `mem_upClosure_iff` (the closure the driver computes = `drainsThrough`) | rounding of a sum taken in another order (correspondence budget) |
-| ... the number of such cells for the default unit field | `accumulateUnit_eq_card`, `gridAccumulate_none` | - |
-| ... equals its own contribution plus the accumulated values of its direct upstream neighbours | `accumulate_recurrence`, `directUp_neighbour`, `mem_directUpList_iff` | - |
+| quantifier: "grids of r x c cells" (`1 ≤ nrows`, `0 < ncols` in the theorems) | needed: `accumulate_default_rejects_empty` (no cells: the default limit is 0 and is rejected), `cAccumulate_rejects_rows`, `cAccumulate_zero_cols` (rows but no columns and an explicit limit: empty answer — the guard tests `nrows` twice) | the real code is run at those points through the wrapper (what it answers is recorded, not compared: the property does not say whether a grid without cells is rejected) |
+| a draining cell holds the sum of the field over that cell and every cell draining through it | exact arithmetic: `accumulate_eq_sum`, `accumulate_acyclic_default`; order-exact for a bare `+`: `accumulate_eq_fold`, `onPath_iff_drains`; `mem_upClosure_iff` (the closure the driver computes = `drainsThrough`); ROUNDED arithmetic (`Rounded α rnd`, every addition followed by `rnd`): `accumulate_rounded_error` (relative error `u` per addition: within `((1+u)^(k-1) - 1) Σ|f|` of the exact sum — the correspondence budget is above it), `accumulate_rounded_exact` (integer-valued fields: exact), `accumulate_rounded_ge` (monotone rounding, non-negative field: at least every contribution); with NO hypothesis on the rounding, for `rndBits p` (round to `p` significant bits, nearest-even — binary64 is `p = 53`): `accumulate_binary_error`, `accumulate_binary_exact` | that the `+` of core `Float` (opaque) IS `rndBits 53` of the exact sum, away from overflow and subnormal numbers: observed — the driver runs the kernel at `Rounded Rat (rndBits 53)` next to the Float instance (`accr` request, bit-for-bit equal) and at `Int` next to it (`acci`) on the case stream |
+| ... the number of such cells for the default unit field | `accumulateUnit_eq_card`, `gridAccumulate_none`; rounded arithmetic: `accumulateUnit_rounded_eq_card`, `accumulateUnit_binary64_eq_card` (exact for grids of up to `2^53` cells) | - |
+| ... equals its own contribution plus the accumulated values of its direct upstream neighbours | `accumulate_recurrence`, `directUp_neighbour`, `mem_directUpList_iff` | `Catchment.upstream` (the library's own list of direct upstream cells) is C06's: upstream/downstream are inverse there |
 | cells that drain nowhere (sinks, off-grid exits, invalid codes) carry the no-data value | `accumulate_terminal`; which cells those are, exactly: `dn_neg_iff` (`dn_sink`, `dn_unknown_code`, `dn_of_code`, `dn_cases`) | - |
-| the input grids' cell values are not altered | memory model of the two float buffers: `cAccumulateS_unaliased`, `cAccumulateS_field_unchanged`, `gridAccumulate_inputs_unchanged` (the clone is a distinct buffer; with one array passed twice the field IS altered — `example`) | the flow-direction buffer is not in the store (the kernel has no store through that pointer): by construction; numpy `astype` of the caller's grids (dtype changes, values kept) and `deepcopy` are external; both observed on the real code by the oracle, call after call |
-| grids with cycles or a reduced limit terminate without error | `accumulate_total`, `accumulateUnit_total`, `cAccumulate_total` (any flow directions, any limit >= 1 or default) | - |
-| glue of the wrapper: default limit, unit default field, accumulation = copy of the field, shapes, result no-data value, limit < 1 | `gridAccumulate_some`, `gridAccumulate_none`, `gridAccumulate_shape`, `accumulate_rejects_limit`, `cAccumulate_eq_fold` (what the initial buffer contributes) | `nprint` (only `fprintf`), dtype conversion of the grids |
+| the input grids' cell values are not altered | memory model of the two float buffers: `cAccumulateS_unaliased`, `cAccumulateS_field_unchanged`, `gridAccumulate_inputs_unchanged` (the clone is a distinct buffer; with one array passed twice the field IS altered — `example`); on grid OBJECTS over any history: `call_frame` (a call leaves the flow-direction grid, the field reference and every existing object as they were), `call_keeps_field`, `edit_result_keeps_field` (the result is a new object) | the flow-direction buffer is not in the store (the kernel has no store through that pointer): by construction; numpy `astype` of the caller's grids (dtype changes, values kept) and `deepcopy` are external; both observed on the real code by the oracle, call after call |
+| grids with cycles or a reduced limit terminate without error | `accumulate_total`, `accumulateUnit_total`, `cAccumulate_total` (any flow directions, any limit >= 1 or default); after any history, with `WF` / field size discharged from the object invariant: `history_call_total` | - |
+| glue of the wrapper: default limit, unit default field, accumulation = copy of the field, shapes, result no-data value, limit < 1, `nprint` | `gridAccumulate_some`, `gridAccumulate_none`, `gridAccumulate_shape`, `accumulate_rejects_limit`, `cAccumulate_eq_fold` (what the initial buffer contributes); `cAccumulateP_result`, `cAccumulateP_lines` (`nprint`, any integer, decides only the number of progress lines) | dtype conversion of the grids (numpy); the text printed |
+| (histories) any sequence of calls and edits of the grid objects through `Grid`'s interface | `run_invariant` (objects stay well-formed: the hypotheses `WF`, "field of the same size" follow from `Grid`'s guards), `step_rejected_unchanged` (an operation that raises changes nothing), `history_call_acyclic` (headline at the state any history reaches), `history_call_total`, `history_call_rejected`, `call_twice_same` (no hidden state), `gridAccumulate_input`, `input_size` | numpy's cast of the values written (the harness sends the values the object holds afterwards) |
 | (finding) the pinned kernel was right only for uniform fields | `cAccumulatePinned_eq_of_uniform`, `example` | - |
 -/
-import HydroVerif.Lemmas.C11Sum
+import HydroVerif.Lemmas.C11Round
+import HydroVerif.Lemmas.C11Sess
+import Mathlib.Algebra.Order.Field.Rat
+import Mathlib.Tactic.NormNum
+import Mathlib.Tactic.IntervalCases
+import Mathlib.Tactic.SplitIfs
 
 set_option linter.unusedSectionVars false
 
@@ -426,6 +434,380 @@ theorem mem_directUpList_iff {g : FlowGrid} {c : Int} (u : Nat) : u ∈ directUp
   unfold directUpList
   rw [mem_directUp, List.mem_filter, List.mem_range, decide_eq_true_eq]
 
+/-! ### 10. the kernel in rounded arithmetic: what stays exact, and how far the rest can be from the sum
+
+`Rounded α rnd` is `α` with `a + b := rnd (a + b)`; `accumulate_eq_fold` applies to it verbatim. IEEE doubles are the
+case `rnd` = rounding to nearest: the identity on the integers up to `2^53`, relative error at most `2^-53`, monotone,
+idempotent. -/
+
+/-- integer-valued contributions are accumulated exactly by any rounding that keeps the integers of absolute value
+`≤ B`, as long as the absolute values upstream of the cell sum to at most `B` — no rounding budget is needed for them -/
+theorem accumulate_rounded_exact {α : Type} [AddGroupWithOne α] (rnd : α → α) (B : Nat)
+    (hrnd : ∀ z : Int, z.natAbs ≤ B → rnd (z : α) = (z : α))
+    {g : FlowGrid} (hg : WF g) (hr : 1 ≤ g.nrows) {m : Int} (hm : 1 ≤ capOf g m)
+    (hT : AllTerminate g (fuelOf (capOf g m))) (nodata : Rounded α rnd) {field : Array (Rounded α rnd)}
+    {N : Nat → Int} (hF : Rep g.ntot.toNat field (fun u => (⟨(N u : α)⟩ : Rounded α rnd)))
+    {acc : Array (Rounded α rnd)} (hacc : accumulate g m nodata field = .ok acc)
+    {c : Int} (hv : validCell g.nrows g.ncols c = true) (hd : 0 ≤ dn g c)
+    (hB : ∑ u ∈ drainsThrough g c, (N u).natAbs ≤ B) :
+    acc[c.toNat]? = some ⟨((∑ u ∈ drainsThrough g c, N u : Int) : α)⟩ := by
+  rw [accumulate_eq_fold hg hr hm hT nodata hF hacc hv hd]
+  obtain ⟨h1, h2⟩ := lt_of_valid hv
+  obtain ⟨e1, e2⟩ := drainsThrough_eq_insert hT h1
+  rw [h2] at e1 e2
+  rw [e1, Finset.sum_insert e2] at hB
+  have hfold := foldl_if_eq_sum (fun u : Nat => onPath g (fuelOf (capOf g m)) (u : Int) c)
+    (fun u => (N u).natAbs) (N c.toNat).natAbs g.ntot.toNat
+  have key := foldl_rounded_int rnd B hrnd (fun u : Nat => onPath g (fuelOf (capOf g m)) (u : Int) c) N
+    (List.range g.ntot.toNat) (N c.toNat) (N c.toNat).natAbs (Nat.le_refl _) (by rw [hfold]; exact hB)
+  have hsum := foldl_if_eq_sum (fun u : Nat => onPath g (fuelOf (capOf g m)) (u : Int) c) N (N c.toNat) g.ntot.toNat
+  rw [e1, Finset.sum_insert e2, ← hsum]
+  exact congrArg some key
+
+/-- the default unit field in rounded arithmetic: the count of the cells draining through a cell is exact as soon as
+the rounding keeps the integers up to the number of cells of the grid (doubles: grids of up to `2^53` cells) -/
+theorem accumulateUnit_rounded_eq_card {α : Type} [AddGroupWithOne α] (rnd : α → α)
+    {g : FlowGrid} (hrnd : ∀ z : Int, z.natAbs ≤ g.ntot.toNat → rnd (z : α) = (z : α))
+    (hg : WF g) (hr : 1 ≤ g.nrows) {m : Int} (hm : 1 ≤ capOf g m)
+    (hT : AllTerminate g (fuelOf (capOf g m))) (nodata : Rounded α rnd)
+    {acc : Array (Rounded α rnd)} (hacc : accumulateUnit g m nodata = .ok acc)
+    {c : Int} (hv : validCell g.nrows g.ncols c = true) (hd : 0 ≤ dn g c) :
+    acc[c.toNat]? = some ⟨(((drainsThrough g c).card : Nat) : α)⟩ := by
+  have hF : Rep g.ntot.toNat (Array.replicate g.flowdir.size (1 : Rounded α rnd))
+      (fun _ => (⟨(((1 : Int)) : α)⟩ : Rounded α rnd)) := by
+    refine ⟨by rw [Array.size_replicate, hg.size_eq], fun j hj => ?_⟩
+    rw [Array.getElem?_replicate, if_pos (by rw [hg.size_eq]; exact hj), Int.cast_one]
+    rfl
+  have hcard : (drainsThrough g c).card ≤ g.ntot.toNat := by
+    have hsub : drainsThrough g c ⊆ Finset.range g.ntot.toNat :=
+      fun u hu => Finset.mem_range.2 (mem_drainsThrough.1 hu).1
+    exact (Finset.card_le_card hsub).trans_eq (Finset.card_range _)
+  have := accumulate_rounded_exact rnd g.ntot.toNat hrnd hg hr hm hT nodata hF hacc hv hd
+    (by simpa using hcard)
+  rw [this]
+  simp
+
+/-- relative-error rounding (`|rnd x - x| ≤ u |x|`; doubles: `u = 2^-53`): the accumulated value of a draining cell is
+within `((1+u)^k - 1) * Σ|f|` of the exact sum over the cells draining through it, `k` the number of additions — the
+budget the correspondence allows (`4 n 2^-52 Σ|f|`) is above it, and two summation orders differ by at most twice it -/
+theorem accumulate_rounded_error {α : Type} [Field α] [LinearOrder α] [IsStrictOrderedRing α] (rnd : α → α) {u : α}
+    (hu : 0 ≤ u) (hrnd : ∀ x, |rnd x - x| ≤ u * |x|)
+    {g : FlowGrid} (hg : WF g) (hr : 1 ≤ g.nrows) {m : Int} (hm : 1 ≤ capOf g m)
+    (hT : AllTerminate g (fuelOf (capOf g m))) (nodata : Rounded α rnd) {field : Array (Rounded α rnd)}
+    {f : Nat → α} (hF : Rep g.ntot.toNat field (fun i => (⟨f i⟩ : Rounded α rnd)))
+    {acc : Array (Rounded α rnd)} (hacc : accumulate g m nodata field = .ok acc)
+    {c : Int} (hv : validCell g.nrows g.ncols c = true) (hd : 0 ≤ dn g c) :
+    ∃ r : α, acc[c.toNat]? = some ⟨r⟩ ∧
+      |r - ∑ i ∈ drainsThrough g c, f i| ≤
+        ((1 + u) ^ ((drainsThrough g c).card - 1) - 1) * ∑ i ∈ drainsThrough g c, |f i| := by
+  obtain ⟨h1, h2⟩ := lt_of_valid hv
+  obtain ⟨e1, e2⟩ := drainsThrough_eq_insert hT h1
+  rw [h2] at e1 e2
+  refine ⟨_, accumulate_eq_fold hg hr hm hT nodata hF hacc hv hd, ?_⟩
+  have key := foldl_rounded_err rnd hu hrnd (fun i : Nat => onPath g (fuelOf (capOf g m)) (i : Int) c) f
+    (List.range g.ntot.toNat) (f c.toNat) (f c.toNat) |f c.toNat| 0 (by simp) (le_refl _)
+  have hs := foldl_if_eq_sum (fun i : Nat => onPath g (fuelOf (capOf g m)) (i : Int) c) f (f c.toNat) g.ntot.toNat
+  have ha := foldl_if_eq_sum (fun i : Nat => onPath g (fuelOf (capOf g m)) (i : Int) c) (fun i => |f i|)
+    |f c.toNat| g.ntot.toNat
+  have hk := foldl_if_eq_sum (fun i : Nat => onPath g (fuelOf (capOf g m)) (i : Int) c) (fun _ => (1 : Nat))
+    0 g.ntot.toNat
+  rw [hs, ha, hk] at key
+  rw [e1, Finset.sum_insert e2, Finset.sum_insert e2, Finset.card_insert_of_notMem e2]
+  simpa using key
+
+/-- monotone idempotent rounding that keeps the contributions, non-negative field: the accumulated value of a draining
+cell is a fixed point of the rounding and is at least every single contribution from the cells draining through it
+(in particular its own) — nothing is cancelled or lost below a summand -/
+theorem accumulate_rounded_ge {α : Type} [AddCommMonoid α] [PartialOrder α] [IsOrderedAddMonoid α] (rnd : α → α)
+    (hmono : ∀ x y, x ≤ y → rnd x ≤ rnd y) (hidem : ∀ x, rnd (rnd x) = rnd x)
+    {g : FlowGrid} (hg : WF g) (hr : 1 ≤ g.nrows) {m : Int} (hm : 1 ≤ capOf g m)
+    (hT : AllTerminate g (fuelOf (capOf g m))) (nodata : Rounded α rnd) {field : Array (Rounded α rnd)}
+    {f : Nat → α} (hf0 : ∀ i, 0 ≤ f i) (hfr : ∀ i, rnd (f i) = f i)
+    (hF : Rep g.ntot.toNat field (fun i => (⟨f i⟩ : Rounded α rnd)))
+    {acc : Array (Rounded α rnd)} (hacc : accumulate g m nodata field = .ok acc)
+    {c : Int} (hv : validCell g.nrows g.ncols c = true) (hd : 0 ≤ dn g c) :
+    ∃ r : α, acc[c.toNat]? = some ⟨r⟩ ∧ rnd r = r ∧ ∀ i ∈ drainsThrough g c, f i ≤ r := by
+  obtain ⟨h1, h2⟩ := lt_of_valid hv
+  obtain ⟨e1, e2⟩ := drainsThrough_eq_insert hT h1
+  rw [h2] at e1 e2
+  refine ⟨_, accumulate_eq_fold hg hr hm hT nodata hF hacc hv hd, ?_⟩
+  obtain ⟨r1, r2, r3⟩ := foldl_rounded_mono rnd hmono hidem
+    (fun i : Nat => onPath g (fuelOf (capOf g m)) (i : Int) c) f hf0 hfr (List.range g.ntot.toNat) (f c.toNat)
+    (hfr _) (hf0 _)
+  refine ⟨r1, fun i hi => ?_⟩
+  rw [e1, Finset.mem_insert, Finset.mem_filter, Finset.mem_range] at hi
+  rcases hi with hi | ⟨hi, hp⟩
+  · subst hi; exact r2
+  · exact r3 i (List.mem_range.2 hi) hp
+
+/-- the kernel computing in `p`-bit binary floating point (round to nearest, ties to even, unbounded exponent range —
+IEEE binary64 is `p = 53` away from overflow and subnormal numbers): no hypothesis on the rounding is left; the
+accumulated value of a draining cell is within `((1 + 2^-p)^(k-1) - 1) Σ|f|` of the exact upstream sum -/
+theorem accumulate_binary_error (p : Nat) {g : FlowGrid} (hg : WF g) (hr : 1 ≤ g.nrows) {m : Int}
+    (hm : 1 ≤ capOf g m) (hT : AllTerminate g (fuelOf (capOf g m))) (nodata : Rounded ℚ (rndBits p))
+    {field : Array (Rounded ℚ (rndBits p))} {f : Nat → ℚ}
+    (hF : Rep g.ntot.toNat field (fun i => (⟨f i⟩ : Rounded ℚ (rndBits p))))
+    {acc : Array (Rounded ℚ (rndBits p))} (hacc : accumulate g m nodata field = .ok acc)
+    {c : Int} (hv : validCell g.nrows g.ncols c = true) (hd : 0 ≤ dn g c) :
+    ∃ r : ℚ, acc[c.toNat]? = some ⟨r⟩ ∧
+      |r - ∑ i ∈ drainsThrough g c, f i| ≤
+        ((1 + (2 : ℚ) ^ (-(p : Int))) ^ ((drainsThrough g c).card - 1) - 1) * ∑ i ∈ drainsThrough g c, |f i| :=
+  accumulate_rounded_error (rndBits p) (by positivity) (rndBits_err p) hg hr hm hT nodata hF hacc hv hd
+
+/-- in `p`-bit binary floating point (`p ≥ 1`) integer-valued fields whose absolute values upstream of a cell sum to at
+most `2^p` are accumulated exactly -/
+theorem accumulate_binary_exact {p : Nat} (hp : 1 ≤ p) {g : FlowGrid} (hg : WF g) (hr : 1 ≤ g.nrows) {m : Int}
+    (hm : 1 ≤ capOf g m) (hT : AllTerminate g (fuelOf (capOf g m))) (nodata : Rounded ℚ (rndBits p))
+    {field : Array (Rounded ℚ (rndBits p))} {N : Nat → Int}
+    (hF : Rep g.ntot.toNat field (fun u => (⟨(N u : ℚ)⟩ : Rounded ℚ (rndBits p))))
+    {acc : Array (Rounded ℚ (rndBits p))} (hacc : accumulate g m nodata field = .ok acc)
+    {c : Int} (hv : validCell g.nrows g.ncols c = true) (hd : 0 ≤ dn g c)
+    (hB : ∑ u ∈ drainsThrough g c, (N u).natAbs ≤ 2 ^ p) :
+    acc[c.toNat]? = some ⟨((∑ u ∈ drainsThrough g c, N u : Int) : ℚ)⟩ :=
+  accumulate_rounded_exact (rndBits p) (2 ^ p) (fun z hz => rndBits_int hp z hz) hg hr hm hT nodata hF hacc hv hd hB
+
+/-- the unit field in binary64: exact cell counts on every grid of up to `2^53` cells -/
+theorem accumulateUnit_binary64_eq_card {g : FlowGrid} (hsize : g.ntot.toNat ≤ 2 ^ 53) (hg : WF g) (hr : 1 ≤ g.nrows)
+    {m : Int} (hm : 1 ≤ capOf g m) (hT : AllTerminate g (fuelOf (capOf g m))) (nodata : Rounded ℚ (rndBits 53))
+    {acc : Array (Rounded ℚ (rndBits 53))} (hacc : accumulateUnit g m nodata = .ok acc)
+    {c : Int} (hv : validCell g.nrows g.ncols c = true) (hd : 0 ≤ dn g c) :
+    acc[c.toNat]? = some ⟨(((drainsThrough g c).card : Nat) : ℚ)⟩ :=
+  accumulateUnit_rounded_eq_card (rndBits 53)
+    (fun z hz => rndBits_int (by norm_num) z (le_trans hz hsize)) hg hr hm hT nodata hacc hv hd
+
+/-! ### 11. `nprint` decides nothing but the progress lines -/
+
+/-- for every `nprint` — zero and negative values included, the guard `nprint > 0` keeps `i % nprint` from being
+evaluated — the kernel returns what it returns without progress lines -/
+theorem cAccumulateP_result {α : Type} [Add α] (g : FlowGrid) (nprint m : Int) (nodata : α) (field acc0 : Array α) :
+    (cAccumulateP g nprint m nodata field acc0).map (·.1) = cAccumulate g m nodata field acc0 := by
+  unfold cAccumulateP cAccumulate
+  split
+  · rfl
+  · split
+    · rfl
+    · exact accLoopP_fst g field nodata _ nprint _ acc0 0
+
+/-- the number of progress lines: one per source cell `i` with `i % nprint = 0` when `nprint > 0`, none otherwise -/
+theorem cAccumulateP_lines {α : Type} [Add α] {g : FlowGrid} {nprint m : Int} {nodata : α} {field acc0 : Array α}
+    {r : Array α × Nat} (h : cAccumulateP g nprint m nodata field acc0 = .ok r) :
+    r.2 = ((List.range g.ntot.toNat).filter (progressAt nprint)).length ∧
+      (nprint ≤ 0 → r.2 = 0) := by
+  unfold cAccumulateP at h
+  split at h
+  · cases h
+  · split at h
+    · cases h
+    · have := accLoopP_snd g field nodata _ nprint _ acc0 0 h
+      rw [Nat.zero_add] at this
+      refine ⟨this, fun hn => ?_⟩
+      rw [this, List.length_eq_zero_iff, List.filter_eq_nil_iff]
+      intro i _
+      unfold progressAt
+      simp
+      intro h0
+      omega
+
+/-! ### 12. the hypotheses `1 ≤ nrows`, `0 < ncols` of the theorems above are needed: what the code does without them -/
+
+/-- a grid without cells (no rows or no columns) run with the default limit: the default limit is then
+`nrows*ncols = 0`, which the kernel rejects — the call raises -/
+theorem accumulate_default_rejects_empty {α : Type} [Add α] (g : FlowGrid) (h : g.nrows * g.ncols < 1)
+    (nodata : α) (field : Array α) : accumulate g (-1) nodata field = .error .badMaxCells := by
+  unfold accumulate cAccumulate capOf
+  rw [if_pos rfl, if_pos h]
+
+/-- a grid without rows is rejected whatever the limit (`nrows < 1`) -/
+theorem cAccumulate_rejects_rows {α : Type} [Add α] (g : FlowGrid) (h : g.nrows < 1) (m : Int)
+    (nodata : α) (field acc0 : Array α) : ∃ e, cAccumulate g m nodata field acc0 = .error e := by
+  unfold cAccumulate
+  split
+  · exact ⟨_, rfl⟩
+  · rw [if_pos (Or.inl h)]; exact ⟨_, rfl⟩
+
+/-- a grid with rows but no columns is NOT rejected by an explicit limit `≥ 1` (the guard tests `nrows` twice and
+never `ncols`): the loop has no cell to visit and the buffer comes back untouched -/
+theorem cAccumulate_zero_cols {α : Type} [Add α] (g : FlowGrid) (hr : 1 ≤ g.nrows) (hc : g.ncols = 0) {m : Int}
+    (hm : 1 ≤ m) (nodata : α) (field acc0 : Array α) : cAccumulate g m nodata field acc0 = .ok acc0 := by
+  unfold cAccumulate
+  rw [if_neg (by omega), if_neg (by omega)]
+  have : g.ntot.toNat = 0 := by unfold FlowGrid.ntot; rw [hc]; simp
+  rw [this]
+  rfl
+
+/-! ### 13. histories: any sequence of calls and edits of the grid objects (`Sess`, `step`, `run`)
+
+`Inv`: every grid object holds `nrows x ncols` values and the references the caller holds designate objects — what
+the constructor and the guarded `data` setter of `Grid` maintain. It discharges the hypotheses `WF` / "field of the
+same size" of the theorems above. -/
+
+/-- an operation that raises (wrong shape assigned, cell index outside the grid, call rejected, no result yet) leaves
+the flow-direction grid, every float grid object and the caller's references exactly as they were -/
+theorem step_rejected_unchanged {α : Type} [Add α] [OfNat α 1] (s : Sess α) (op : Op α)
+    (h : (step s op).2 = .rejected) : (step s op).1 = s := step_rejected_eq s op h
+
+/-- the invariant survives every history, and no operation changes the shape or the code table of the
+flow-direction grid -/
+theorem run_invariant {α : Type} [Add α] [OfNat α 1] {s : Sess α} (hI : Inv s) (ops : List (Op α)) :
+    Inv (run s ops).1 ∧ (run s ops).1.fd.nrows = s.fd.nrows ∧ (run s ops).1.fd.ncols = s.fd.ncols ∧
+      (run s ops).1.fd.codes = s.fd.codes := run_inv hI ops
+
+/-- the answer of a call is the wrapper on the CURRENT contents of the objects (no state is kept between calls), and
+the call leaves the flow-direction grid, the limit, the caller's field reference and every existing object as they
+were; a successful call adds one object, the result, and makes it the last result -/
+theorem call_frame {α : Type} [Add α] [OfNat α 1] (s : Sess α) :
+    (step s .call).2 = (match gridAccumulate s.fd s.fdNodata s.fieldGrid s.cap with
+      | .error _ => .rejected
+      | .ok (_, r) => .result r) ∧
+    (step s .call).1.fd = s.fd ∧ (step s .call).1.fdNodata = s.fdNodata ∧ (step s .call).1.cap = s.cap ∧
+    (step s .call).1.field = s.field ∧
+    (∀ q, q < s.heap.size → (step s .call).1.heap[q]? = s.heap[q]?) ∧
+    (∀ r, (step s .call).2 = .result r →
+      (step s .call).1.res = some s.heap.size ∧ (step s .call).1.heap[s.heap.size]? = some r) := by
+  rw [step_call_eq s]
+  cases gridAccumulate s.fd s.fdNodata s.fieldGrid s.cap with
+  | error e => exact ⟨rfl, rfl, rfl, rfl, rfl, fun _ _ => rfl, fun r h => by cases h⟩
+  | ok p =>
+    obtain ⟨st, r⟩ := p
+    refine ⟨rfl, rfl, rfl, rfl, rfl, fun q hq => ?_, fun r' h => ?_⟩
+    · show (s.heap.push r)[q]? = s.heap[q]?
+      rw [Array.getElem?_push, if_neg (by omega)]
+    · cases h
+      exact ⟨rfl, Array.getElem?_push_size⟩
+
+/-- the field grid seen by a call does not change through the call (same object, same contents) -/
+theorem call_keeps_field {α : Type} [Add α] [OfNat α 1] {s : Sess α} (hI : Inv s) :
+    (step s .call).1.fieldGrid = s.fieldGrid := by
+  obtain ⟨-, -, -, -, hf, hheap, -⟩ := call_frame s
+  unfold Sess.fieldGrid
+  rw [hf]
+  cases hq : s.field with
+  | none => rfl
+  | some q => exact hheap q (hI.fieldRef q hq)
+
+/-- no hidden state: the same call made again gives the same answer -/
+theorem call_twice_same {α : Type} [Add α] [OfNat α 1] {s : Sess α} (hI : Inv s) :
+    (step (step s .call).1 .call).2 = (step s .call).2 := by
+  have h1 := (call_frame (step s .call).1).1
+  have h2 := (call_frame s).1
+  obtain ⟨-, hfd, hnd, hcap, -, -, -⟩ := call_frame s
+  rw [h1, h2, hfd, hnd, hcap, call_keeps_field hI]
+
+/-- the grid returned is a new object: whatever the caller then does to it (`e`: cells, fill, no-data value) leaves
+the field grid as it was — the next call sees the same field -/
+theorem edit_result_keeps_field {α : Type} [Add α] [OfNat α 1] {s : Sess α} (hI : Inv s) {r : FieldGrid α}
+    (hres : (step s .call).2 = .result r) (e : FieldGrid α → Option (FieldGrid α)) :
+    (((step s .call).1).editAt ((step s .call).1).res e).1.fieldGrid = s.fieldGrid := by
+  obtain ⟨-, -, -, -, hf, hheap, hnew⟩ := call_frame s
+  obtain ⟨hr1, hr2⟩ := hnew r hres
+  rw [hr1]
+  unfold Sess.editAt
+  simp only [hr2]
+  cases e r with
+  | none => exact call_keeps_field hI
+  | some r' =>
+    show (Option.bind (step s .call).1.field fun q => ((step s .call).1.heap.setIfInBounds s.heap.size r')[q]?) = _
+    rw [hf]
+    unfold Sess.fieldGrid
+    cases hq : s.field with
+    | none => rfl
+    | some q =>
+      have hlt := hI.fieldRef q hq
+      show ((step s .call).1.heap.setIfInBounds s.heap.size r')[q]? = s.heap[q]?
+      rw [Array.getElem?_setIfInBounds_ne (by omega), hheap q hlt]
+
+/-- the wrapper in terms of what the kernel receives in the state `s` (`Sess.input`): the field's data and no-data
+value, or the unit field and the flow-direction grid's no-data value -/
+theorem gridAccumulate_input {α : Type} [Add α] [OfNat α 1] (s : Sess α)
+    (hshape : ∀ f, s.fieldGrid = some f → f.nrows = s.fd.nrows ∧ f.ncols = s.fd.ncols) :
+    gridAccumulate s.fd s.fdNodata s.fieldGrid s.cap =
+      (accumulate s.fd s.cap s.input.2 s.input.1).map
+        (fun a => ((⟨s.input.1, a, false⟩ : Store α), (⟨s.fd.nrows, s.fd.ncols, a, s.input.2⟩ : FieldGrid α))) := by
+  unfold Sess.input
+  cases hf : s.fieldGrid with
+  | none => exact gridAccumulate_none s.fd s.fdNodata s.cap
+  | some f =>
+    obtain ⟨h1, h2⟩ := hshape f hf
+    rw [gridAccumulate_some s.fd s.fdNodata f s.cap ⟨h1, h2⟩, h1, h2]
+
+/-- what the kernel receives has the size of the grid, in every state a history can reach -/
+theorem input_size {α : Type} [Add α] [OfNat α 1] {s : Sess α} (hI : Inv s)
+    (hshape : ∀ f, s.fieldGrid = some f → f.nrows = s.fd.nrows ∧ f.ncols = s.fd.ncols) :
+    s.input.1.size = s.fd.ntot.toNat := by
+  unfold Sess.input
+  cases hf : s.fieldGrid with
+  | none => simp only [Array.size_replicate]; exact hI.fdSize
+  | some f =>
+    obtain ⟨h1, h2⟩ := hshape f hf
+    obtain ⟨q, -, hq⟩ : ∃ q, s.field = some q ∧ s.heap[q]? = some f := by
+      unfold Sess.fieldGrid at hf
+      cases hfield : s.field with
+      | none => rw [hfield] at hf; cases hf
+      | some q => rw [hfield] at hf; exact ⟨q, rfl, hf⟩
+    have hws := hI.heapShaped q f hq
+    unfold FieldGrid.wellShaped at hws
+    simp only [decide_eq_true_eq] at hws
+    show f.data.size = _
+    rw [hws, h1, h2]
+    rfl
+
+/-- after ANY history on well-formed objects, a call with the default limit or a limit `≥ 1` on a grid with cells
+answers — flow directions with cycles included — with one value per cell: `WF` and "field of the same size" are
+consequences of the guards of `Grid`, not assumptions -/
+theorem history_call_total {α : Type} [Add α] [OfNat α 1] {s0 : Sess α} (hI : Inv s0) (ops : List (Op α))
+    (hr : 1 ≤ s0.fd.nrows) (hc : 0 < s0.fd.ncols)
+    (hcap : (run s0 ops).1.cap = -1 ∨ 1 ≤ (run s0 ops).1.cap)
+    (hshape : ∀ f, (run s0 ops).1.fieldGrid = some f →
+      f.nrows = (run s0 ops).1.fd.nrows ∧ f.ncols = (run s0 ops).1.fd.ncols) :
+    ∃ r, (step (run s0 ops).1 .call).2 = .result r ∧ r.data.size = (run s0 ops).1.fd.ntot.toNat ∧
+      r.nrows = s0.fd.nrows ∧ r.ncols = s0.fd.ncols ∧ r.nodata = (run s0 ops).1.input.2 := by
+  obtain ⟨hIs, hnr, hnc, -⟩ := run_inv hI ops
+  generalize (run s0 ops).1 = s at *
+  have hg : WF s.fd := ⟨by rw [hnc]; exact hc, hIs.fdSize⟩
+  obtain ⟨acc, hacc, hsz⟩ := accumulate_total hg (by rw [hnr]; exact hr) hcap s.input.2 (input_size hIs hshape)
+  refine ⟨⟨s.fd.nrows, s.fd.ncols, acc, s.input.2⟩, ?_, hsz, hnr, hnc, rfl⟩
+  rw [(call_frame s).1, gridAccumulate_input s hshape, hacc]
+  rfl
+
+/-- a limit below one (other than `-1`) or a field grid of another shape makes the call raise, and nothing changes -/
+theorem history_call_rejected {α : Type} [Add α] [OfNat α 1] (s : Sess α)
+    (h : (s.cap < 1 ∧ s.cap ≠ -1 ∧ ∀ f, s.fieldGrid = some f → f.nrows = s.fd.nrows ∧ f.ncols = s.fd.ncols) ∨
+      ∃ f, s.fieldGrid = some f ∧ (f.nrows ≠ s.fd.nrows ∨ f.ncols ≠ s.fd.ncols)) :
+    step s .call = (s, .rejected) := by
+  have key : ∃ e, gridAccumulate s.fd s.fdNodata s.fieldGrid s.cap = .error e := by
+    rcases h with ⟨h1, h2, h3⟩ | ⟨f, hf, hne⟩
+    · rw [gridAccumulate_input s h3, accumulate_rejects_limit s.fd h1 h2]
+      exact ⟨_, rfl⟩
+    · rw [hf, gridAccumulate_shape s.fd s.fdNodata f s.cap hne]
+      exact ⟨_, rfl⟩
+  obtain ⟨e, he⟩ := key
+  rw [step_call_eq s, he]
+
+/-- headline over histories: whatever calls and edits came before, a call with the default limit on flow directions
+that are acyclic NOW returns, for the field as it is NOW, the no-data value on the cells that drain nowhere and the
+sum of the field over the upstream closure on every other cell -/
+theorem history_call_acyclic {α : Type} [AddCommMonoid α] [OfNat α 1] {s0 : Sess α} (hI : Inv s0)
+    (ops : List (Op α)) (hr : 1 ≤ s0.fd.nrows) (hc : 0 < s0.fd.ncols)
+    (hnc : NoCycle (run s0 ops).1.fd) (hcap : (run s0 ops).1.cap = -1)
+    (hshape : ∀ f, (run s0 ops).1.fieldGrid = some f →
+      f.nrows = (run s0 ops).1.fd.nrows ∧ f.ncols = (run s0 ops).1.fd.ncols) :
+    ∃ r, (step (run s0 ops).1 .call).2 = .result r ∧ r.data.size = (run s0 ops).1.fd.ntot.toNat ∧
+      r.nodata = (run s0 ops).1.input.2 ∧
+      ∀ c : Int, validCell s0.fd.nrows s0.fd.ncols c = true →
+        r.data[c.toNat]? = some (if dn (run s0 ops).1.fd c < 0 then (run s0 ops).1.input.2
+          else ∑ u ∈ drainsThrough (run s0 ops).1.fd c,
+            (run s0 ops).1.input.1[u]?.getD (run s0 ops).1.input.2) := by
+  obtain ⟨hIs, hnr, hnc', -⟩ := run_inv hI ops
+  generalize (run s0 ops).1 = s at *
+  have hg : WF s.fd := ⟨by rw [hnc']; exact hc, hIs.fdSize⟩
+  have hF : Rep s.fd.ntot.toNat s.input.1 (fun j => s.input.1[j]?.getD s.input.2) :=
+    input_size hIs hshape ▸ rep_self s.input.1 s.input.2
+  obtain ⟨acc, hacc, hsz, hval⟩ := accumulate_acyclic_default hg (by rw [hnr]; exact hr) hnc s.input.2 hF
+  refine ⟨⟨s.fd.nrows, s.fd.ncols, acc, s.input.2⟩, ?_, hsz, rfl, fun c hv => ?_⟩
+  · rw [(call_frame s).1, gridAccumulate_input s hshape, hcap, hacc]
+    rfl
+  · exact hval c (by rw [hnr, hnc']; exact hv)
+
 /-! ### non-vacuity: a concrete non-trivial grid satisfying every hypothesis, and the finding -/
 
 /-- 2x3 grid, FLOWDIRCODE of grid.py; cells 0 → 1 → 2 (exit east), 3 → 1 (north-east), 4 → 1 (north), 5 sink -/
@@ -468,5 +850,197 @@ example : upClosure gEx 7 1 = [0, 1, 3, 4] ∧ directUpList gEx 1 = [0, 3, 4] :=
 /-- a 2-cycle (cells 0 ⇄ 1) terminates at the cap -/
 example : accumulate ⟨1, 2, [32, 64, 128, 16, 0, 1, 8, 4, 2], #[1, 16]⟩ (-1) (-1 : Int) #[1, 1] = .ok #[4, 4] := by
   decide
+
+/-! ### non-vacuity of the rounded-arithmetic, `nprint`, empty-grid and history theorems -/
+
+example : WF gEx ∧ (1 : Int) ≤ gEx.nrows ∧ 1 ≤ capOf gEx (-1) ∧ AllTerminate gEx (fuelOf (capOf gEx (-1))) ∧
+    validCell gEx.nrows gEx.ncols 1 = true ∧ 0 ≤ dn gEx 1 :=
+  ⟨⟨by decide, by decide⟩, by decide, by decide, allTerminate_of_B (by decide), by decide, by decide⟩
+
+/-- a rounding of `ℚ` that keeps the integers up to 100 and halves everything else: the field 5, 1, 7, 2, 3, 4 is
+accumulated exactly (all hypotheses of `accumulate_rounded_exact` hold together) -/
+def rndEx (x : ℚ) : ℚ := if |x| ≤ 100 then x else x / 2
+
+example (acc : Array (Rounded ℚ rndEx))
+    (hacc : accumulate gEx (-1) (⟨-9999⟩ : Rounded ℚ rndEx)
+      ((#[5, 1, 7, 2, 3, 4] : Array Int).map fun (z : Int) => (⟨(z : ℚ)⟩ : Rounded ℚ rndEx)) = .ok acc) :
+    acc[(1 : Int).toNat]? =
+      some ⟨((∑ u ∈ drainsThrough gEx 1, (#[5, 1, 7, 2, 3, 4] : Array Int)[u]?.getD 0 : Int) : ℚ)⟩ :=
+  accumulate_rounded_exact (g := gEx) rndEx 100
+    (fun z hz => by
+      have h : |(z : ℚ)| ≤ 100 := by
+        rw [← Int.cast_abs, Int.abs_eq_natAbs]
+        exact_mod_cast hz
+      unfold rndEx
+      rw [if_pos h])
+    ⟨by decide, by decide⟩ (by decide) (by decide) (allTerminate_of_B (by decide)) ⟨-9999⟩
+    (show Rep gEx.ntot.toNat _ _ from rep_rounded_int rndEx #[5, 1, 7, 2, 3, 4]) hacc (by decide) (by decide)
+    (le_trans (Finset.sum_le_sum_of_subset (fun u hu => Finset.mem_range.2 (mem_drainsThrough.1 hu).1))
+      (by decide))
+
+/-- a rounding of `ℚ` with relative error 1/8 -/
+def rndErr (x : ℚ) : ℚ := x + x / 8
+
+example (acc : Array (Rounded ℚ rndErr))
+    (hacc : accumulate gEx (-1) (⟨-9999⟩ : Rounded ℚ rndErr)
+      ((#[5, 1, 7, 2, 3, 4] : Array ℚ).map fun x => (⟨x⟩ : Rounded ℚ rndErr)) = .ok acc) :
+    ∃ r : ℚ, acc[(1 : Int).toNat]? = some ⟨r⟩ ∧
+      |r - ∑ i ∈ drainsThrough gEx 1, (#[5, 1, 7, 2, 3, 4] : Array ℚ)[i]?.getD 0| ≤
+        ((1 + 1 / 8) ^ ((drainsThrough gEx 1).card - 1) - 1) *
+          ∑ i ∈ drainsThrough gEx 1, |(#[5, 1, 7, 2, 3, 4] : Array ℚ)[i]?.getD 0| :=
+  accumulate_rounded_error (g := gEx) rndErr (by norm_num)
+    (fun x => by
+      unfold rndErr
+      rw [show x + x / 8 - x = 1 / 8 * x by ring, abs_mul]
+      norm_num)
+    ⟨by decide, by decide⟩ (by decide) (by decide) (allTerminate_of_B (by decide)) ⟨-9999⟩
+    (show Rep gEx.ntot.toNat _ _ from rep_rounded rndErr #[5, 1, 7, 2, 3, 4] 0) hacc (by decide) (by decide)
+
+/-- a monotone idempotent rounding of `ℕ`: the identity up to 8, down to a multiple of 4 above -/
+def rndDown (n : Nat) : Nat := if n ≤ 8 then n else n - n % 4
+
+example (acc : Array (Rounded Nat rndDown))
+    (hacc : accumulate gEx (-1) (⟨0⟩ : Rounded Nat rndDown)
+      ((#[5, 1, 7, 2, 3, 4] : Array Nat).map fun x => (⟨x⟩ : Rounded Nat rndDown)) = .ok acc) :
+    ∃ r : Nat, acc[(1 : Int).toNat]? = some ⟨r⟩ ∧ rndDown r = r ∧
+      ∀ i ∈ drainsThrough gEx 1, (#[5, 1, 7, 2, 3, 4] : Array Nat)[i]?.getD 0 ≤ r :=
+  accumulate_rounded_ge (g := gEx) rndDown
+    (fun x y h => by unfold rndDown; split_ifs <;> omega)
+    (fun x => by unfold rndDown; split_ifs <;> omega)
+    ⟨by decide, by decide⟩ (by decide) (by decide) (allTerminate_of_B (by decide)) ⟨0⟩
+    (fun i => Nat.zero_le _)
+    (fun i => by
+      unfold rndDown
+      rw [if_pos]
+      by_cases hi : i < 6
+      · interval_cases i <;> decide
+      · rw [Array.getElem?_eq_none (by simp; omega)]; decide)
+    (show Rep gEx.ntot.toNat _ _ from rep_rounded rndDown #[5, 1, 7, 2, 3, 4] 0) hacc (by decide) (by decide)
+/-- the rounding is visible: with `rndDown` cell 1 receives 5+1 = 6, 6+2 = 8, 8+3 = 11 → 8 -/
+example : accumulate gEx (-1) (⟨0⟩ : Rounded Nat rndDown) #[⟨5⟩, ⟨1⟩, ⟨7⟩, ⟨2⟩, ⟨3⟩, ⟨4⟩] =
+    .ok #[⟨5⟩, ⟨8⟩, ⟨0⟩, ⟨2⟩, ⟨3⟩, ⟨0⟩] := by decide
+
+/-- `nprint`: 0 and a negative value print nothing, 2 prints for the cells 0, 2, 4; the values are those of `cAccumulate` -/
+example : (cAccumulateP gEx 0 6 (-9999 : Int) #[5, 1, 7, 2, 3, 4] #[5, 1, 7, 2, 3, 4]).map (·.2) = .ok 0 ∧
+    (cAccumulateP gEx (-3) 6 (-9999 : Int) #[5, 1, 7, 2, 3, 4] #[5, 1, 7, 2, 3, 4]).map (·.2) = .ok 0 ∧
+    cAccumulateP gEx 2 6 (-9999 : Int) #[5, 1, 7, 2, 3, 4] #[5, 1, 7, 2, 3, 4] =
+      .ok (#[5, 11, -9999, 2, 3, -9999], 3) := by decide
+
+/-- grids without cells: default limit rejected; without rows rejected; without columns and a limit: empty answer -/
+example : accumulate ⟨2, 0, gEx.codes, #[]⟩ (-1) (-1 : Int) #[] = .error .badMaxCells ∧
+    cAccumulate ⟨0, 3, gEx.codes, #[]⟩ 4 (-1 : Int) #[] #[] = .error .badDims ∧
+    cAccumulate ⟨2, 0, gEx.codes, #[]⟩ 4 (-1 : Int) #[] #[] = .ok #[] := by decide
+
+/-- a history on `gEx`: call; the caller overwrites the result and feeds it back as the field; edits it; a wrong-shape
+assignment and an out-of-range cell are rejected; the limit 0 makes the call raise; default limit again -/
+def sEx : Sess Int := ⟨gEx, -1, #[⟨2, 3, #[5, 1, 7, 2, 3, 4], -9999⟩], some 0, none, -1⟩
+def opsEx : List (Op Int) :=
+  [.call, .rFill 1, .feedBack, .fSetCell 0 9, .fAssign 3 2 #[0, 0, 0, 0, 0, 0], .fSetCell 6 1, .setCap 0, .call, .setCap (-1)]
+
+example : Inv sEx :=
+  ⟨by decide, fun q f h => by
+      match q with
+      | 0 => simp [sEx] at h; subst h; decide
+      | q + 1 => simp [sEx] at h,
+    fun q h => by cases h; decide, fun q h => by cases h⟩
+
+example : (run sEx opsEx).2 =
+    [.result ⟨2, 3, #[5, 11, -9999, 2, 3, -9999], -9999⟩, .done, .done, .done, .rejected, .rejected, .done, .rejected, .done] ∧
+    (run sEx opsEx).1.fieldGrid = some ⟨2, 3, #[9, 1, 1, 1, 1, 1], -9999⟩ ∧
+    (run sEx opsEx).1.field = some 1 ∧ (run sEx opsEx).1.res = some 1 ∧
+    (step (run sEx opsEx).1 .call).2 = .result ⟨2, 3, #[9, 12, -9999, 1, 1, -9999], -9999⟩ := by decide
+
+/-- `history_call_acyclic` applies to the state this history reaches (the field is now the edited former result) -/
+example : ∃ r, (step (run sEx opsEx).1 .call).2 = .result r ∧ r.data.size = (run sEx opsEx).1.fd.ntot.toNat ∧
+    r.nodata = (run sEx opsEx).1.input.2 ∧
+    ∀ c : Int, validCell sEx.fd.nrows sEx.fd.ncols c = true →
+      r.data[c.toNat]? = some (if dn (run sEx opsEx).1.fd c < 0 then (run sEx opsEx).1.input.2
+        else ∑ u ∈ drainsThrough (run sEx opsEx).1.fd c,
+          (run sEx opsEx).1.input.1[u]?.getD (run sEx opsEx).1.input.2) :=
+  history_call_acyclic
+    ⟨by decide, fun q f h => by
+        match q with
+        | 0 => simp [sEx] at h; subst h; decide
+        | q + 1 => simp [sEx] at h,
+      fun q h => by cases h; decide, fun q h => by cases h⟩
+    opsEx (by decide) (by decide)
+    (noCycle_of_allTerminate (allTerminate_of_B (fuel := 7) (by decide))) (by decide)
+    (fun f hf => by
+      have : (run sEx opsEx).1.fieldGrid = some ⟨2, 3, #[9, 1, 1, 1, 1, 1], -9999⟩ := by decide
+      rw [this] at hf
+      cases hf
+      decide)
+
+/-- the same object as result and field (right after `feedBack`): editing "the result" edits the field — which is why
+`edit_result_keeps_field` needs the result to come from the call just made -/
+example : ((run sEx [.call, .feedBack, .rFill 0]).1).fieldGrid = some ⟨2, 3, #[0, 0, 0, 0, 0, 0], -9999⟩ := by decide
+
+/-- the unit field in the rounded arithmetic `rndEx`: cell 1 of `gEx` counts its 4 cells exactly -/
+example (acc : Array (Rounded ℚ rndEx)) (hacc : accumulateUnit gEx (-1) (⟨-1⟩ : Rounded ℚ rndEx) = .ok acc) :
+    acc[(1 : Int).toNat]? = some ⟨(((drainsThrough gEx 1).card : Nat) : ℚ)⟩ :=
+  accumulateUnit_rounded_eq_card (g := gEx) rndEx
+    (fun z hz => by
+      have h : |(z : ℚ)| ≤ 100 := by
+        rw [← Int.cast_abs, Int.abs_eq_natAbs]
+        have : z.natAbs ≤ 6 := hz
+        exact_mod_cast (by omega : z.natAbs ≤ 100)
+      unfold rndEx
+      rw [if_pos h])
+    ⟨by decide, by decide⟩ (by decide) (by decide) (allTerminate_of_B (by decide)) ⟨-1⟩ hacc (by decide) (by decide)
+
+/-- any flow directions: the 2-cycle 0 ⇄ 1 with the limit 3 answers; the limit 0 and a 3x2 field are rejected -/
+def sCyc : Sess Int := ⟨⟨1, 2, gEx.codes, #[1, 16]⟩, -1, #[⟨1, 2, #[3, 4], -9999⟩], some 0, none, 3⟩
+
+example : ∃ r, (step (run sCyc [.fSetCell 1 5]).1 .call).2 = .result r ∧
+    r.data.size = (run sCyc [.fSetCell 1 5]).1.fd.ntot.toNat ∧ r.nrows = sCyc.fd.nrows ∧ r.ncols = sCyc.fd.ncols ∧
+    r.nodata = (run sCyc [.fSetCell 1 5]).1.input.2 :=
+  history_call_total
+    ⟨by decide, fun q f h => by
+        match q with
+        | 0 => simp [sCyc] at h; subst h; decide
+        | q + 1 => simp [sCyc] at h,
+      fun q h => by cases h; decide, fun q h => by cases h⟩
+    [.fSetCell 1 5] (by decide) (by decide) (Or.inr (by decide))
+    (fun f hf => by
+      have : (run sCyc [.fSetCell 1 5]).1.fieldGrid = some ⟨1, 2, #[3, 5], -9999⟩ := by decide
+      rw [this] at hf
+      cases hf
+      decide)
+
+example : step (run sCyc [.setCap 0]).1 .call = ((run sCyc [.setCap 0]).1, .rejected) :=
+  history_call_rejected _ (Or.inl ⟨by decide, by decide, fun f hf => by
+    have : (run sCyc [.setCap 0]).1.fieldGrid = some ⟨1, 2, #[3, 4], -9999⟩ := by decide
+    rw [this] at hf
+    cases hf
+    decide⟩)
+
+example : step (run sCyc [.fNew ⟨2, 1, #[3, 4], 0⟩]).1 .call = ((run sCyc [.fNew ⟨2, 1, #[3, 4], 0⟩]).1, .rejected) :=
+  history_call_rejected _ (Or.inr ⟨⟨2, 1, #[3, 4], 0⟩, by decide, by decide⟩)
+
+
+/-- binary floating point with 4 significant bits on `gEx`: every hypothesis of `accumulate_binary_error` holds (the
+rounding needs none); core `Rat` does not reduce in the kernel, so the values themselves are computed by the driver only
+(`accr` request) -/
+example (acc : Array (Rounded ℚ (rndBits 4)))
+    (hacc : accumulate gEx (-1) (⟨0⟩ : Rounded ℚ (rndBits 4))
+      ((#[5, 1, 7, 20, 3, 4] : Array ℚ).map fun x => (⟨x⟩ : Rounded ℚ (rndBits 4))) = .ok acc) :
+    ∃ r : ℚ, acc[(1 : Int).toNat]? = some ⟨r⟩ ∧
+      |r - ∑ i ∈ drainsThrough gEx 1, (#[5, 1, 7, 20, 3, 4] : Array ℚ)[i]?.getD 0| ≤
+        ((1 + (2 : ℚ) ^ (-((4 : Nat) : Int))) ^ ((drainsThrough gEx 1).card - 1) - 1) *
+          ∑ i ∈ drainsThrough gEx 1, |(#[5, 1, 7, 20, 3, 4] : Array ℚ)[i]?.getD 0| :=
+  accumulate_binary_error 4 (g := gEx) ⟨by decide, by decide⟩ (by decide) (by decide) (allTerminate_of_B (by decide)) ⟨0⟩
+    (show Rep gEx.ntot.toNat _ _ from rep_rounded (rndBits 4) #[5, 1, 7, 20, 3, 4] 0) hacc (by decide) (by decide)
+/-- binary64: the integer field 5, 1, 7, 2, 3, 4 is accumulated exactly (all hypotheses of `accumulate_binary_exact`) -/
+example (acc : Array (Rounded ℚ (rndBits 53)))
+    (hacc : accumulate gEx (-1) (⟨-9999⟩ : Rounded ℚ (rndBits 53))
+      ((#[5, 1, 7, 2, 3, 4] : Array Int).map fun (z : Int) => (⟨(z : ℚ)⟩ : Rounded ℚ (rndBits 53))) = .ok acc) :
+    acc[(1 : Int).toNat]? =
+      some ⟨((∑ u ∈ drainsThrough gEx 1, (#[5, 1, 7, 2, 3, 4] : Array Int)[u]?.getD 0 : Int) : ℚ)⟩ :=
+  accumulate_binary_exact (p := 53) (by norm_num) (g := gEx) ⟨by decide, by decide⟩ (by decide) (by decide)
+    (allTerminate_of_B (by decide)) ⟨-9999⟩
+    (show Rep gEx.ntot.toNat _ _ from rep_rounded_int (rndBits 53) #[5, 1, 7, 2, 3, 4]) hacc (by decide) (by decide)
+    (le_trans (Finset.sum_le_sum_of_subset (fun u hu => Finset.mem_range.2 (mem_drainsThrough.1 hu).1))
+      (by decide))
+example : gEx.ntot.toNat ≤ 2 ^ 53 := by decide
 
 end HydroVerif.C11
